@@ -148,16 +148,29 @@ NewObj(h, src, t, exec, pr, c, py) ==
   [h |-> h, src |-> src, t |-> t, flag |-> exec, priced |-> exec,
    cost |-> IF exec THEN c ELSE 0, pay |-> IF exec THEN py ELSE None, prio |-> IF exec THEN pr ELSE <<>>]
 
-\* pr: the priority the implementation computed (a fact; equal to txs[h].prio in the model-checking configs)
-AddLocked(o, h, src, t, exec, hd, pr) ==
-  LET tx == txs[h] IN
-  IF AddVerdict(h, exec, hd) # "ok" THEN UNCHANGED <<objs, byHash, byID, quota, cost>>
+\* pr: the priority the implementation computed (a fact; equal to PrioOf in the model-checking configs).
+\* checkDup: the duplicate test is part of this critical section (as in the code).  FALSE models a variant that has looked the
+\* hash up BEFORE taking the lock (a read-locked "fast path"): kept for the teeth config MCPool_dupcheck.cfg, where two
+\* submissions of one tx both pass the lookup and both insert - QuotaExact / CostExact must then be violated.
+AddLockedWith(o, h, src, t, exec, hd, pr, checkDup) ==
+  LET tx == txs[h]
+      v == AddVerdict(h, exec, hd)
+      v2 == IF v = "dup" /\ ~checkDup
+            THEN (IF At(quota, tx.org, 0) >= LimitPerAccount THEN "quota"
+                  ELSE IF tx.dlg # None /\ At(quota, tx.dlg, 0) >= LimitPerAccount THEN "dquota"
+                  ELSE IF exec /\ hd.synced /\ At(cost, PayerAt(tx, hd), 0) + CostAt(tx, hd) > Energy(hd, PayerAt(tx, hd)) THEN "payer"
+                  ELSE "ok")
+            ELSE v
+  IN
+  IF v2 # "ok" THEN UNCHANGED <<objs, byHash, byID, quota, cost>>
   ELSE /\ o \notin DOMAIN objs
        /\ objs' = Put(objs, o, NewObj(h, src, t, exec, pr, CostAt(tx, hd), PayerAt(tx, hd)))
        /\ byHash' = Put(byHash, h, o)
        /\ byID' = Put(byID, tx.id, o)
        /\ quota' = IncQ(quota, tx)
        /\ cost' = IF exec THEN AddCost(cost, PayerAt(tx, hd), CostAt(tx, hd)) ELSE cost
+
+AddLocked(o, h, src, t, exec, hd, pr) == AddLockedWith(o, h, src, t, exec, hd, pr, TRUE)
 
 \* txObjectMap.Fill, one element: no limit check, no cost
 FillLocked(o, h, t) ==
